@@ -189,9 +189,10 @@ def run(prop="C16", propose=False, replay=None):
     timer = Timer()
     thorough = tier() == "thorough"
     rnd = random.Random(seed() + 16)
-    mcs = [tlc.model_check("Body.tla", "Body_structural.cfg", workers=4)]
+    # thorough: bodies of up to five statements (104k bodies), all of them realised
+    mcs = [tlc.model_check("Body.tla", "Body_structural5.cfg" if thorough else "Body_structural.cfg", workers=(16 if thorough else 4))]
     d = scratch("body-")
-    tlc.export("BodyExport.tla", "BodyExport.cfg", d)
+    tlc.export("BodyExport.tla", "BodyExport5.cfg" if thorough else "BodyExport.cfg", d)
     rows = tlc.read_ndjson(os.path.join(d, "body.ndjson"))
     if not thorough:
         short = [r for r in rows if len(r["body"]) <= 2]
@@ -205,7 +206,7 @@ def run(prop="C16", propose=False, replay=None):
     with Pool(NCPU) as pool:
         res = pool.map(run_body, recs, chunksize=100)
     traces = [{k: r[k] for k in ("id", "kind", "body", "exc", "out", "call", "again")} for r in res]
-    fails, stats = tlc.validate_traces("BodyTrace.tla", "BodyTrace.cfg", traces, shards=8)
+    fails, stats = tlc.validate_traces("BodyTrace.tla", "BodyTrace5.cfg" if thorough else "BodyTrace.cfg", traces, shards=(16 if thorough else 8))
     matcher = F.Matcher(prop)
     violations, unmatched = [], []
     by = {r["id"]: r for r in res}
@@ -243,7 +244,7 @@ def run(prop="C16", propose=False, replay=None):
     cov["transitions"] += stats["states"]
     cov.update({"traces_validated_against_impl": len(traces), "bodies": len(recs), "failing_traces": len(fails), "known_findings_matched": len(matcher.hits),
                 "stale_findings": matcher.stale(), "exhaustive": thorough,
-                "rule": "every body of Body.tla up to 2 statements and a sample (all in thorough) of the bodies of 3-4 statements over 9 function / 8 argparse "
+                "rule": "every body of Body.tla up to 2 statements and a sample of the bodies of 3-4 statements (thorough: every body of up to 5 statements) over 9 function / 8 argparse "
                         "statement tokens; parse + emit to the same kind and name; __call__ re-homing with labelled names; the same conversion again "
                         "after a class (with and without __call__) and an argparse function were made from the same description",
                 "samples": [{k: v for k, v in r.items() if k in ("kind", "body", "out", "call")} for r in res[:: max(1, len(res) // 3)][:3]]})
